@@ -341,6 +341,11 @@ func c11Init() {
 // c11NewFilter builds a fresh real filter over strg.  The result cache is
 // fresh too, so no lookup of a case is ever served from it (C12's subject).
 func c11NewFilter(strg *Storage, id internal.ID, repl, file string) (f *Filter) {
+	return c11NewFilterN(strg, id, repl, file, 16)
+}
+
+// c11NewFilterN is [c11NewFilter] with a result cache of count items.
+func c11NewFilterN(strg *Storage, id internal.ID, repl, file string, count int) (f *Filter) {
 	f, err := NewFilter(&FilterConfig{
 		Logger:          c11Logger,
 		Cloner:          c11Cloner,
@@ -355,7 +360,7 @@ func c11NewFilter(strg *Storage, id internal.ID, repl, file string) (f *Filter) 
 		Staleness:       time.Hour,
 		CacheTTL:        time.Hour,
 		RefreshTimeout:  time.Second,
-		CacheCount:      16,
+		CacheCount:      count,
 		MaxSize:         1 << 20,
 	})
 	if err != nil {
@@ -600,6 +605,60 @@ type c11Step struct {
 type c11ResetCase struct {
 	Via   string    `json:"via"`
 	Steps []c11Step `json:"steps"`
+}
+
+// c11FailStep is one document given to Reset / Refresh in a "failedresets"
+// history.  Bad == "" is a well-formed list (messy rendering); otherwise the
+// document is the plain rendering of Mask with ONE line longer than
+// bufio.Scanner's 64 KiB token limit at position Bad: "begin", "middle"
+// (between the host lines), "end", or "endnonl" (last line, no final newline).
+type c11FailStep struct {
+	Mask int    `json:"mask"`
+	Bad  string `json:"bad,omitempty"`
+}
+
+// c11FailCase: a history of documents of which some cannot be scanned.
+type c11FailCase struct {
+	Via   string        `json:"via"` // "storage": Storage.Reset; "refresh": Filter.RefreshInitial / Refresh from a file
+	Steps []c11FailStep `json:"steps"`
+}
+
+// c11FailNames are the list candidates of the "failedresets" part; the last
+// two share a bucket of Storage.hashSuffixes.
+var c11FailNames = []string{"a.com", "x.b.a.com", "a.x.co.uk", "a.www.www.com"}
+
+// c11BadPositions are the positions of the over-long line.
+var c11BadPositions = []string{"begin", "middle", "end", "endnonl"}
+
+// c11LongLine is longer than bufio.MaxScanTokenSize.
+var c11LongLine = strings.Repeat("a", 70000)
+
+// c11FailDoc renders the document of a step.  mult is the multiplicity of
+// every listed name in a well-formed document.
+func c11FailDoc(names []string, st c11FailStep) (text string, mult int) {
+	if st.Bad == "" {
+		return c11Render(names, st.Mask, 3)
+	}
+	var lines []string
+	for i, n := range names {
+		if st.Mask&(1<<i) != 0 {
+			lines = append(lines, n)
+		}
+	}
+	at := len(lines)
+	switch st.Bad {
+	case "begin":
+		at = 0
+	case "middle":
+		at = (len(lines) + 1) / 2
+	}
+	lines = slices.Insert(lines, at, c11LongLine)
+	text = strings.Join(lines, "\n")
+	if st.Bad != "endnonl" {
+		text += "\n"
+	}
+
+	return text, 1
 }
 
 func TestVerifC11Hosts(t *testing.T) {
@@ -871,6 +930,171 @@ func TestVerifC11Hosts(t *testing.T) {
 	})
 
 	mark("resets")
+
+	// Part 5: histories in which some documents cannot be scanned (one line
+	// longer than bufio.Scanner's token limit: a corrupted download, an HTML
+	// page served with 200).  Whatever Reset / Refresh does with such a
+	// document, afterwards the hosts and hashes that match must be those of
+	// ONE list: the document's, if it was accepted (no error), else those of
+	// the last accepted list - a rejected update must not change which hosts
+	// are treated as listed.  A later good document must be fully in force.
+	failN := vrt.Pick(r, 3, 4)
+	failRefreshN := vrt.Pick(r, 2, 3)
+	failProbes := append(append([]string{}, c11FailNames...), c11Junk(c11FailNames)...)
+	var failPrefs []Prefix
+	for _, n := range append(append([]string{}, c11FailNames...), "", "#a.com", "# header a.com") {
+		if p := c11Prefix(n); !slices.Contains(failPrefs, p) {
+			failPrefs = append(failPrefs, p)
+		}
+	}
+	if slices.Contains(failPrefs, c11Prefix(c11LongLine)) {
+		vrt.Fatalf("alphabet: the over-long line shares a hash prefix with a probe")
+	}
+	failHosts := []string{"b.com", "x.co.uk"}
+	for _, n := range c11FailNames {
+		failHosts = append(failHosts, n, "b."+n)
+	}
+	shm := os.Getenv("VERIF_C11_TMP")
+	if shm == "" {
+		shm = "/dev/shm"
+	}
+	if fi, err := os.Stat(shm); err != nil || !fi.IsDir() {
+		shm = t.TempDir()
+	}
+	failDir, err := os.MkdirTemp(shm, "c11-")
+	if err != nil {
+		vrt.Fatalf("scratch dir: %v", err)
+	}
+	failTmp := filepath.Join(failDir, "list.txt")
+	failAlphabet := func(n int) (alpha []c11FailStep) {
+		for mask := 0; mask < 1<<n; mask++ {
+			alpha = append(alpha, c11FailStep{Mask: mask})
+		}
+		for _, bad := range c11BadPositions {
+			for mask := 0; mask < 1<<n; mask++ {
+				alpha = append(alpha, c11FailStep{Mask: mask, Bad: bad})
+			}
+		}
+
+		return alpha
+	}
+	r.Bound("failedreset_history_depth", depth)
+	r.Bound("failedreset_alphabet_storage", len(failAlphabet(failN)))
+	r.Bound("failedreset_alphabet_refresh", len(failAlphabet(failRefreshN)))
+	docCache := map[c11FailStep]string{}
+	vrt.Part(r, "failedresets", func(emit func(c11FailCase)) {
+		for _, via := range []string{"storage", "refresh"} {
+			alpha := failAlphabet(failN)
+			if via == "refresh" {
+				alpha = failAlphabet(failRefreshN)
+			}
+			vrt.Sequences(len(alpha), 1, depth, func(seq []int) {
+				steps := make([]c11FailStep, len(seq))
+				anyBad := false
+				for i, k := range seq {
+					steps[i] = alpha[k]
+					anyBad = anyBad || alpha[k].Bad != ""
+				}
+				if anyBad {
+					// Histories of good documents only are part 4.
+					emit(c11FailCase{Via: via, Steps: steps})
+				}
+			})
+		}
+	}, func(c c11FailCase) (fs []vrt.Finding) {
+		names := c11FailNames
+		s, _ := NewStorage("")
+		var refr *Filter
+		if c.Via == "refresh" {
+			// Large enough to keep every (host, qtype) asked in a history.
+			refr = c11NewFilterN(s, internal.IDSafeBrowsing, c11Repls[0], failTmp, 1024)
+		}
+		inForce, inForceMult := 0, 1
+		outcome := ""
+		for i, st := range c.Steps {
+			text, ok := docCache[st]
+			mult := 1
+			if st.Bad == "" {
+				mult = 2
+			}
+			if !ok {
+				text, _ = c11FailDoc(names, st)
+				docCache[st] = text
+			}
+			var err error
+			if c.Via == "refresh" {
+				if err = os.WriteFile(failTmp, []byte(text), 0o600); err != nil {
+					vrt.Fatalf("writing %s: %v", failTmp, err)
+				}
+				if i == 0 {
+					err = refr.RefreshInitial(context.Background())
+				} else {
+					err = refr.Refresh(context.Background())
+				}
+			} else {
+				_, err = s.Reset(text)
+			}
+			r.Trans(1)
+			switch {
+			case err == nil:
+				inForce, inForceMult = st.Mask, mult
+				if st.Bad != "" {
+					outcome += "A"
+				} else {
+					outcome += "g"
+				}
+			case st.Bad == "":
+				return append(fs, vrt.F("failedreset/good-document-rejected", "%s history %+v, document %d: %v", c.Via, c.Steps, i+1, err)...)
+			default:
+				outcome += "R"
+			}
+			last := i == len(c.Steps)-1
+			listed := c11Listed(names, inForce)
+			ctxt := func() string {
+				return fmt.Sprintf("%s history %+v (outcomes %s; g good, R rejected with an error, A over-long line accepted), after document %d; list in force %v",
+					c.Via, c.Steps, outcome, i+1, c11Keys(listed))
+			}
+			if c.Via == "refresh" {
+				// Lookups through the refreshing filter itself: after every
+				// document the even hosts (so that at the end they have been
+				// asked before), after the last one all hosts.
+				for k, h := range failHosts {
+					if !last && k%2 != 0 {
+						continue
+					}
+					hfs, _ := c11CheckHost(r, refr, h, c11QTypes, listed, ctxt)
+					for _, hf := range hfs {
+						hf.Key = "failedreset/same-" + hf.Key
+						fs = append(fs, hf)
+					}
+				}
+			}
+			if !last {
+				continue
+			}
+			sfs, digest := c11CheckStorage(r, s, listed, inForceMult, failProbes, failPrefs, ctxt())
+			for _, f := range sfs {
+				f.Key = "failedreset/" + strings.TrimPrefix(f.Key, "storage/")
+				fs = append(fs, f)
+			}
+			f := c11NewFilter(s, internal.IDAdultBlocking, c11Repls[i%2], "/nonexistent/c11")
+			vecs := ""
+			for _, h := range failHosts {
+				hfs, vec := c11CheckHost(r, f, h, c11QTypes, listed, ctxt)
+				for _, hf := range hfs {
+					hf.Key = "failedreset/" + hf.Key
+					fs = append(fs, hf)
+				}
+				vecs += vec[:1]
+			}
+			r.Class("failedreset/" + c.Via + "/" + outcome)
+			r.State(fmt.Sprintf("failedreset|%s|%s|%d|%s|%s", c.Via, outcome, inForce, digest, vecs))
+		}
+		return fs
+	})
+
+	mark("failedresets")
+	_ = os.RemoveAll(failDir)
 
 	r.Finish()
 	os.Exit(0)
